@@ -137,8 +137,14 @@ fn offsets(from: usize, to: usize, w: usize) -> Vec<usize> {
 }
 
 pub struct Plan {
-    /// window width in bits
+    /// window width in bits (DF17 ME)
     pub w: usize,
+    /// window width for the DF18 control fields swept with windows
+    pub w18: usize,
+    /// window width for the direct register calls
+    pub wreg: usize,
+    /// step over first byte / value in whole Comm-B frames
+    pub commb_step: usize,
     /// DF18 control fields swept with windows
     pub cfs: Vec<u8>,
     /// extra seed-derived backgrounds (non-deciding)
@@ -158,9 +164,9 @@ pub fn plan(ctx: &Ctx) -> Plan {
         extra.push(b);
     }
     if ctx.thorough() {
-        Plan { w: 16, cfs: vec![0, 1, 2, 3, 4, 5, 6, 7], extra_bg: extra, joint_step: 1, thorough: true }
+        Plan { w: 14, w18: 10, wreg: 16, commb_step: 1, cfs: vec![0, 1, 2, 3, 4, 5, 6, 7], extra_bg: extra, joint_step: 1, thorough: true }
     } else {
-        Plan { w: 10, cfs: vec![2], extra_bg: extra, joint_step: 8, thorough: false }
+        Plan { w: 8, w18: 8, wreg: 12, commb_step: 8, cfs: vec![2], extra_bg: extra, joint_step: 8, thorough: false }
     }
 }
 
@@ -224,12 +230,13 @@ pub fn sweep(ctx: &Ctx, rep: &Report, v: &dyn Visitor, want_registers: bool) -> 
     // (d) extended squitter: all 256 first ME bytes x windows over the other 48 bits x backgrounds
     let mut bgs: Vec<[u8; 7]> = vec![[0u8; 7], [0xffu8; 7]];
     bgs.extend(p.extra_bg.iter().cloned());
-    let offs = offsets(8, 56, p.w);
     let mut es_kinds: Vec<(u8, u8)> = vec![(17, 5)];
     for cf in &p.cfs {
         es_kinds.push((18, *cf));
     }
     for (df, c3) in &es_kinds {
+        let w = if *df == 17 { p.w } else { p.w18 };
+        let offs = offsets(8, 56, w);
         let n = 256u64 * offs.len() as u64;
         par_ranges(ctx.threads, n, 1, |lo, hi| {
             for i in lo..hi {
@@ -238,8 +245,8 @@ pub fn sweep(ctx: &Ctx, rep: &Report, v: &dyn Visitor, want_registers: bool) -> 
                 for bg in &bgs {
                     let mut me = *bg;
                     me[0] = first;
-                    for val in 0..(1u64 << p.w) {
-                        set_bits(&mut me, off, p.w, val);
+                    for val in 0..(1u64 << w) {
+                        set_bits(&mut me, off, w, val);
                         let f = es(*df, *c3, addr, &me, 0);
                         visit_frame(v, &c, if *df == 17 { "DF17:window" } else { "DF18:window" }, &f);
                     }
@@ -258,7 +265,7 @@ pub fn sweep(ctx: &Ctx, rep: &Report, v: &dyn Visitor, want_registers: bool) -> 
         par_ranges(ctx.threads, 256, 4, |lo, hi| {
             for first in lo..hi {
                 for off in (8..=48).step_by(8) {
-                    for bg in &bgs[..2] {
+                    for bg in &bgs[..if p.thorough { 2 } else { 1 }] {
                         let mut me = *bg;
                         me[0] = first as u8;
                         for val in 0..256u64 {
@@ -288,18 +295,18 @@ pub fn sweep(ctx: &Ctx, rep: &Report, v: &dyn Visitor, want_registers: bool) -> 
             }
         }
     }
-    rep.part("extended squitter windows", c.frames.load(Ordering::Relaxed), serde_json::json!({"accepted": c.accepted.load(Ordering::Relaxed), "window_bits": p.w, "offsets": offs, "kinds": es_kinds.len()}));
+    rep.part("extended squitter windows", c.frames.load(Ordering::Relaxed), serde_json::json!({"accepted": c.accepted.load(Ordering::Relaxed), "window_bits_df17": p.w, "window_bits_df18": p.w18, "kinds": es_kinds.len()}));
     // (e) Comm-B registers called directly: windows over all 56 bits x backgrounds
     if want_registers {
-        let roffs = offsets(0, 56, p.w);
+        let roffs = offsets(0, 56, p.wreg);
         for name in REGISTERS {
             let bgs: Vec<[u8; 7]> = vec![[0u8; 7], exemplar(name), status_background(name)];
             par_ranges(ctx.threads, roffs.len() as u64 * bgs.len() as u64, 1, |lo, hi| {
                 for i in lo..hi {
                     let off = roffs[(i as usize) / bgs.len()];
                     let mut mb = bgs[(i as usize) % bgs.len()];
-                    for val in 0..(1u64 << p.w) {
-                        set_bits(&mut mb, off, p.w, val);
+                    for val in 0..(1u64 << p.wreg) {
+                        set_bits(&mut mb, off, p.wreg, val);
                         visit_reg(v, &c, name, &mb);
                     }
                 }
@@ -338,7 +345,7 @@ pub fn sweep(ctx: &Ctx, rep: &Report, v: &dyn Visitor, want_registers: bool) -> 
             let ex = exemplar(name);
             let code = if df == 20 { ac13_q(35000) } else { id13(1, 2, 3, 4) };
             visit_frame(v, &c, "commb:exemplar", &df20_21(df, 0, 0, 0, code, &ex, addr));
-            let step = if p.thorough { 1 } else { 4 };
+            let step = p.commb_step;
             par_ranges(ctx.threads, 256 / step as u64, 4, |lo, hi| {
                 for first in lo..hi {
                     for off in (8..=48).step_by(8) {
@@ -393,11 +400,12 @@ pub fn sweep(ctx: &Ctx, rep: &Report, v: &dyn Visitor, want_registers: bool) -> 
             }
         });
     }
+    let mut batch: Vec<(&'static str, Vec<u8>)> = Vec::new();
     // every vertical-rate code x sign x source; every GNSS-baro difference
     for vr in 0..512u16 {
         for flags in 0..8u8 {
             let me = me_bds09_gs(1, 0, 0, 0, 0, 100, 1, 200, flags & 1, (flags >> 1) & 1, vr, (flags >> 2) & 1, (vr & 0x7f) as u8);
-            visit_frame(v, &c, "velocity:vrate", &df17(5, addr, &me, 0));
+            batch.push(("velocity:vrate", df17(5, addr, &me, 0)));
         }
     }
     // surface: all movement codes x all track codes x status, TC 5..8
@@ -405,7 +413,7 @@ pub fn sweep(ctx: &Ctx, rep: &Report, v: &dyn Visitor, want_registers: bool) -> 
         for mov in 0..128u8 {
             for trk in 0..128u8 {
                 for s in [0u8, 1] {
-                    visit_frame(v, &c, "surface", &df17(5, addr, &me_bds06(tc, mov, s, trk, 0, 0, 1000, 2000), 0));
+                    batch.push(("surface", df17(5, addr, &me_bds06(tc, mov, s, trk, 0, 0, 1000, 2000), 0)));
                 }
             }
         }
@@ -413,7 +421,7 @@ pub fn sweep(ctx: &Ctx, rep: &Report, v: &dyn Visitor, want_registers: bool) -> 
     // airborne position: all 4096 altitude codes x TC 9..18, 20..22
     for tc in (9..=18u8).chain(20..=22) {
         for ac in 0..4096u16 {
-            visit_frame(v, &c, "airborne:altitude", &df17(5, addr, &me_bds05(tc, 0, 0, ac, 0, 0, 93000, 51372), 0));
+            batch.push(("airborne:altitude", df17(5, addr, &me_bds05(tc, 0, 0, ac, 0, 0, 93000, 51372), 0)));
         }
     }
     // identification: every character code at every position, every TC/CA
@@ -423,7 +431,7 @@ pub fn sweep(ctx: &Ctx, rep: &Report, v: &dyn Visitor, want_registers: bool) -> 
                 for code in 0..64u8 {
                     let mut cs = cs_codes("ABCDEFGH");
                     cs[pos] = code;
-                    visit_frame(v, &c, "identification", &df17(5, addr, &me_bds08(tc, ca, &cs), 0));
+                    batch.push(("identification", df17(5, addr, &me_bds08(tc, ca, &cs), 0)));
                 }
             }
         }
@@ -433,22 +441,22 @@ pub fn sweep(ctx: &Ctx, rep: &Report, v: &dyn Visitor, want_registers: bool) -> 
             let mut cs = cs_codes("ABCDEFGH");
             cs[pos] = code;
             for df in [20u8, 21] {
-                visit_frame(v, &c, "identification:bds20", &df20_21(df, 0, 0, 0, ac13_q(35000), &mb_bds20(&cs), addr));
+                batch.push(("identification:bds20", df20_21(df, 0, 0, 0, ac13_q(35000), &mb_bds20(&cs), addr)));
             }
         }
     }
     // BDS 6,2: all selected altitudes, all QNH, all headings; BDS 6,1: all identity codes x subtype x emergency
     for alt in 0..2048u16 {
-        visit_frame(v, &c, "bds62", &df17(5, addr, &me_bds62(1, (alt & 1) as u8, alt, 300, 1, 100, 9, 1, 3, 0xff), 0));
+        batch.push(("bds62", df17(5, addr, &me_bds62(1, (alt & 1) as u8, alt, 300, 1, 100, 9, 1, 3, 0xff), 0)));
     }
     for q in 0..512u16 {
         for st in 0..4u8 {
-            visit_frame(v, &c, "bds62", &df17(5, addr, &me_bds62(st, 0, 1000, q, (q & 1) as u8, q, (q & 15) as u8, 0, (q & 3) as u8, q as u8), 0));
+            batch.push(("bds62", df17(5, addr, &me_bds62(st, 0, 1000, q, (q & 1) as u8, q, (q & 15) as u8, 0, (q & 3) as u8, q as u8), 0)));
         }
     }
     for id in 0..8192u16 {
         for st in [0u8, 1, 2, 7] {
-            visit_frame(v, &c, "bds61", &df17(5, addr, &me_bds61(st, (id & 7) as u8, id), 0));
+            batch.push(("bds61", df17(5, addr, &me_bds61(st, (id & 7) as u8, id), 0)));
         }
     }
     // BDS 6,5: subtype x version x every 8-bit window of capability / mode / tail fields
@@ -466,12 +474,17 @@ pub fn sweep(ctx: &Ctx, rep: &Report, v: &dyn Visitor, want_registers: bool) -> 
                         } else {
                             set_bits(&mut me, 43, 5, val & 31);
                         }
-                        visit_frame(v, &c, "bds65", &df17(5, addr, &me, 0));
+                        batch.push(("bds65", df17(5, addr, &me, 0)));
                     }
                 }
             }
         }
     }
+    par_ranges(ctx.threads, batch.len() as u64, 256, |lo, hi| {
+        for (g, f) in &batch[lo as usize..hi as usize] {
+            visit_frame(v, &c, g, f);
+        }
+    });
     rep.part("joint and complete field sweeps", c.frames.load(Ordering::Relaxed), serde_json::json!({"accepted": c.accepted.load(Ordering::Relaxed)}));
     c
 }
